@@ -1,20 +1,6 @@
-"""Per-property claims: what MANIFEST.json says about each check.  tools/mkmanifest.py turns this into MANIFEST.json."""
+"""Common wording for MANIFEST.json; each property's own claim lives in gen/cNN.py as `CLAIM`."""
 
 LEVEL_NOTE_COMMON = ("Trusted: Lean 4.33.0 kernel and the axioms printed by `#print axioms` for each listed theorem "
                      "(only propext / Classical.choice / Quot.sound are accepted; no sorry, no native_decide, no own axioms); "
                      "the hand-written Lean model is tied to /repo by the correspondence check that runs on every invocation "
                      "(Rust harness with path dependencies on /repo's crates, rebuilt from the current working tree; generators in /verif/gen); ")
-
-CLAIMS = {
-    "C20": {
-        "technique": "Lean 4 theorems about a model of Golden::new/assert (world = file x env var) + exhaustive cross-product correspondence against the real okane_golden crate",
-        "text": ("Proof: the golden helper is modelled as pure functions over a world (file content, UPDATE_GOLDEN value at "
-                 "new-time and at assert-time); theorems C20_compare / C20_readonly / C20_missing / C20_update / C20_env state the "
-                 "property for all contents, all `got` strings and all environment values. The model is tied to golden/src/lib.rs "
-                 "by running the real crate in a scratch directory on the full cross product of file states x got strings x "
-                 "environment states and diffing verdict, file bytes and mtime against the model; the property's statement is "
-                 "also evaluated directly on the real code's behaviour."),
-        "note": "std::fs / std::env behaviour, UTF-8 decoding and the success of fs::write are modelled, not verified.",
-        "design_ref": "DESIGN.md section 6, C20",
-    },
-}
